@@ -167,6 +167,11 @@ def lex(s: str):
                         toks.append(("right", max(int(params or 1), 1) - 1))
                 elif params == "?2026" and final in "hl":
                     toks.append(("syncb",) if final == "h" else ("synce",))
+                elif params == "?1049" and final in "hl":
+                    # the alternate screen buffer: placements belong to the buffer they were made on
+                    toks.append(("alton",) if final == "h" else ("altoff",))
+                elif params.startswith("?") and final in "hl" and set(params[1:].split(";")) & {"47", "1047", "1048", "1049"}:
+                    raise LexError(f"screen-buffer switch CSI {params}{final} is not modelled (only ?1049 alone)")
                 elif final in "mKXJhlrtn@PLMST" or (params.startswith("?") and final in "hl"):
                     # SGR, erase in line / chars / display, modes, scroll region, window ops,
                     # insert / delete characters and lines: no effect on placements here
@@ -282,4 +287,25 @@ def coq_tok(t) -> str:
 
 
 def coq_toks(toks) -> str:
+    """a list of [stok] (no screen-buffer switch: e.g. the rows of a canvas)"""
+    for t in toks:
+        if t[0] in ("alton", "altoff"):
+            raise LexError("screen-buffer switch where only placement-level tokens are expected")
     return "[" + "; ".join(coq_tok(t) for t in toks) + "]"
+
+
+def coq_btoks(toks) -> str:
+    """a list of [btok] (model/ScreenSession.v): runs of [stok] (`bts [...]`, model/ScreenTie.v)
+    separated by the screen-buffer switches"""
+    parts, run = [], []
+    for t in toks:
+        if t[0] in ("alton", "altoff"):
+            if run:
+                parts.append("bts [" + "; ".join(coq_tok(x) for x in run) + "]")
+                run = []
+            parts.append("[BAltOn]" if t[0] == "alton" else "[BAltOff]")
+        else:
+            run.append(t)
+    if run or not parts:
+        parts.append("bts [" + "; ".join(coq_tok(x) for x in run) + "]")
+    return "(" + " ++ ".join(parts) + ")"
